@@ -89,6 +89,22 @@ def discharge(obligations, timeout_ms=10000, cross_check=False):
             jobs.append((i, ob.smt2(), min(timeout_ms, 5000), False))
         else:
             jobs.append((i, ob.smt2(), timeout_ms, True))
+    # stage 0: try the quantifier-free part of the path condition first (fewer
+    # hypotheses is still a proof; these queries are fast and stable)
+    pre = []
+    for (i, smt2, to, wm) in jobs:
+        ob = obligations[i]
+        if ob.kind != "canary" and ob.has_quantified_pc():
+            pre.append((i, ob.smt2(qf_only=True)))
+    if pre:
+        outs0 = pool().map(_run_z3, [(p[1], min(timeout_ms, 4000), False) for p in pre], chunksize=1)
+        done = set()
+        for (i, _), (r, model, t, reason) in zip(pre, outs0):
+            if r == "unsat":
+                results[i] = {"verdict": "unsat", "backend": "z3", "time_s": t,
+                              "note": "discharged from the quantifier-free part of the path condition"}
+                done.add(i)
+        jobs = [j for j in jobs if j[0] not in done]
     if jobs:
         outs = pool().map(_run_z3, [(j[1], j[2], j[3]) for j in jobs], chunksize=1)
         retry = []
